@@ -90,6 +90,67 @@ func GenText(o TextOpts) *rapid.Generator[string] {
 	})
 }
 
+// LookAlike returns a value that is NOT lit but resembles it (variant k): another version segment, another
+// letter case, one character more or less, a doubled separator. Values one step away from a constant of the
+// implementation are where a "normalising" or "recognising" shortcut goes wrong; "" when the variant does not apply.
+func LookAlike(lit string, k int) string {
+	out := lit
+	switch k % 9 {
+	case 0:
+		switch {
+		case strings.Contains(lit, ":1.1:"):
+			out = strings.Replace(lit, ":1.1:", ":2.0:", 1)
+		case strings.Contains(lit, ":2.0:"):
+			out = strings.Replace(lit, ":2.0:", ":1.1:", 1)
+		case strings.Contains(lit, "2.0"):
+			out = strings.Replace(lit, "2.0", "2.1", 1)
+		}
+	case 1:
+		out = strings.ToUpper(lit)
+	case 2:
+		out = strings.ToLower(lit)
+	case 3:
+		out = lit + "x"
+	case 4:
+		out = lit[:len(lit)-1]
+	case 5:
+		out = strings.Replace(lit, ":", "::", 1)
+	case 6:
+		out = " " + lit
+	case 7:
+		if i := strings.LastIndexAny(lit, ":/#"); i >= 0 && i+1 < len(lit) {
+			out = lit[:i+1] + strings.ToUpper(lit[i+1:i+2]) + lit[i+2:]
+			if out == lit {
+				out = lit[:i+1] + strings.ToLower(lit[i+1:i+2]) + lit[i+2:]
+			}
+		}
+	case 8:
+		out = lit + "/"
+	}
+	if out == lit || !utf8.ValidString(out) {
+		return ""
+	}
+	return out
+}
+
+// GenLookAlike draws a look-alike of one of the implementation's string constants (of those containing sub, when
+// sub is not empty); "" when there is none.
+func GenLookAlike(sub string) *rapid.Generator[string] {
+	return rapid.Custom(func(t *rapid.T) string {
+		var pool []string
+		for _, l := range CodeLiterals() {
+			if (sub == "" || strings.Contains(l, sub)) && len(l) >= 4 {
+				pool = append(pool, l)
+			}
+		}
+		if len(pool) == 0 {
+			return ""
+		}
+		lit := pool[rapid.IntRange(0, len(pool)-1).Draw(t, "lookAlikeOf")]
+		return LookAlike(lit, rapid.IntRange(0, 8).Draw(t, "lookAlikeHow"))
+	})
+}
+
 // TextClass classifies a value for the non-triviality rule.
 func TextClass(s string) (markup, ws, nonASCII, cr bool) {
 	for _, r := range s {
